@@ -60,6 +60,11 @@ def envelope(tag_v2, tag_v1, payloads, a, alg=1):
     return raw
 
 
+def status_tlv(a, st):
+    """the status element; 'absent' = the (protocol-wise mandatory) element is left out"""
+    return b"" if a["status"] == "absent" else ksi.tlv(0x04, ksi.uint(st))
+
+
 def sign_reply(a, rng, rid, doc, level, prev_rid=None):
     """bytes the aggregator writes for attribute vector a (None = it closes the connection)"""
     if a["what"] == "close":
@@ -69,10 +74,10 @@ def sign_reply(a, rng, rid, doc, level, prev_rid=None):
     if a["what"] == "errpdu":
         return envelope(0x0221, (0x0200, 0x0203), [(0x03, ksi.tlv(0x04, ksi.uint(0x101)) + ksi.tlv(0x05, b"error\0"))], a)
     use_id = rid if a["id"] == "same" else rid + (1 << 32) if a["id"] == "wide" else (prev_rid if (a["id"] == "stale" and prev_rid) else rid + 1000)
-    st = int(a["status"], 16)
+    st = 0 if a["status"] == "absent" else int(a["status"], 16)
     errmsg = ksi.tlv(0x05, b"request failed\0") if st else b""
     if a.get("body", "full") == "empty":
-        body = ksi.tlv(0x01, ksi.uint(use_id)) + ksi.tlv(0x04, ksi.uint(st)) + errmsg
+        body = ksi.tlv(0x01, ksi.uint(use_id)) + status_tlv(a, st) + errmsg
         return envelope(0x0221, (0x0200, 0x0202), [(0x02, body)], a)
     d = doc if a["hash"] == "same" else ksi.imprint(doc[0], b"some other document")
     lvl = level
@@ -80,7 +85,7 @@ def sign_reply(a, rng, rid, doc, level, prev_rid=None):
     if a["cons"] == "broken":
         case["viol"] = [rng.choice([dict(c="indexShape", at=1), dict(c="calInput", at=0), dict(c="authHash", at=0), dict(c="calShape", at=0)])]
     sig = build_for(case, rng, d, lvl)
-    body = ksi.tlv(0x01, ksi.uint(use_id)) + ksi.tlv(0x04, ksi.uint(st)) + errmsg + b"".join(sig_parts(sig, level))
+    body = ksi.tlv(0x01, ksi.uint(use_id)) + status_tlv(a, st) + errmsg + b"".join(sig_parts(sig, level))
     return envelope(0x0221, (0x0200, 0x0202), [(0x02, body)], a)
 
 
@@ -162,10 +167,10 @@ def ext_reply(a, rng, rid, src, aggr, pub_req, alter_without_cal=False):
     if a["what"] == "errpdu":
         return envelope(0x0321, (0x0300, 0x0303), [(0x03, ksi.tlv(0x04, ksi.uint(0x101)) + ksi.tlv(0x05, b"error\0"))], a), None
     use_id = rid if a["id"] == "same" else rid + (1 << 32) if a["id"] == "wide" else rid + 1000
-    st = int(a["status"], 16)
+    st = 0 if a["status"] == "absent" else int(a["status"], 16)
     errmsg = ksi.tlv(0x05, b"request failed\0") if st else b""
     if a.get("body", "full") == "empty":
-        body = ksi.tlv(0x01, ksi.uint(use_id)) + ksi.tlv(0x04, ksi.uint(st)) + errmsg
+        body = ksi.tlv(0x01, ksi.uint(use_id)) + status_tlv(a, st) + errmsg
         return envelope(0x0321, (0x0300, 0x0302), [(0x02, body)], a), None
     pub = pub_req if pub_req is not None else aggr + 9000 + rng.randrange(100)
     if a["pubtime"] == "other":
@@ -180,5 +185,5 @@ def ext_reply(a, rng, rid, src, aggr, pub_req, alter_without_cal=False):
     root_in = src.root()[0]
     inp = sigcase.flip(root_in) if a["input"] == "other" else root_in
     cal = ksi.cal_chain_tlv(pub, field_aggr, inp, links)
-    body = ksi.tlv(0x01, ksi.uint(use_id)) + ksi.tlv(0x04, ksi.uint(st)) + errmsg + ksi.tlv(0x12, ksi.uint(pub + 50)) + cal
+    body = ksi.tlv(0x01, ksi.uint(use_id)) + status_tlv(a, st) + errmsg + ksi.tlv(0x12, ksi.uint(pub + 50)) + cal
     return envelope(0x0321, (0x0300, 0x0302), [(0x02, body)], a), dict(pub=pub, links=links, inp=inp, cal=cal, root=ksi.cal_aggregate(links, inp))
